@@ -119,6 +119,7 @@ func (e c22cEvent) String() string {
 
 type c22cScenario struct {
 	name    string
+	heavy   bool // setRemoveNewOperations (job worker: daemon threads) runs in it
 	init    []c22cOp
 	threads [][]c22cOp
 }
@@ -824,7 +825,7 @@ func c22cBuild(env *c22Env, s c22cScenario, col *c22cCollector) vsched.Scenario 
 					xs = append(xs, strings.Join(per[ti], ","))
 				}
 
-				outcome = strings.Join(xs, "|") + "=>" + quiescent + "=>" + fmt.Sprint(evs[len(evs)-1].res)
+				outcome = strings.Join(xs, "|") + " probe " + fmt.Sprint(evs[len(evs)-1].res) + "=>" + quiescent
 			}
 
 			o := &c22cOracle{env: env, evs: evs}
@@ -850,24 +851,36 @@ func c22cScenarios() []c22cScenario {
 
 	type T = [][]c22cOp
 
-	// op0=(f1,a) op1=(f1,b) op2=(f2,a) op3=(f2,b); filters: a all, f reject fact f1, o reject op1, n reject all
+	// op0=(f1,a) op1=(f1,b) op2=(f2,a) op3=(f2,b); filters: a all, f reject fact f1, o reject op1, n reject all.
+	// heavy = setRemoveNewOperations runs in the scenario: its job worker adds 2-3 daemon threads and ~25 scheduling
+	// points per removal (every blocking point of a daemon is a free choice of the explorer).
 	return []c22cScenario{
-		{"same-op-adders-reader", nil, T{{S(0)}, {S(0)}, {Q(33, 10, 'a')}}},
-		{"same-op-adders-read-back", nil, T{{S(0), Q(33, 10, 'a')}, {S(0), Q(33, 10, 'a')}}},
-		{"same-op-adders-rejecting-reader", nil, T{{S(0)}, {S(0)}, {Q(33, 10, 'n')}}},
-		{"same-fact-adders-reader", nil, T{{S(0)}, {S(1)}, {Q(33, 10, 'a')}}},
-		{"different-facts-adders-limit-1", nil, T{{S(0)}, {S(2)}, {Q(33, 1, 'a')}}},
-		{"mixed-adders-limit-2", nil, T{{S(0), S(2)}, {S(3), S(1)}, {Q(33, 2, 'a')}}},
-		{"same-fact-adder-limit-1-then-all", []c22cOp{S(0)}, T{{S(1)}, {Q(33, 1, 'a'), Q(33, 10, 'a')}}},
-		{"rejecting-and-accepting-readers", []c22cOp{S(0), S(2)}, T{{Q(33, 10, 'f')}, {Q(33, 10, 'a')}}},
-		{"reject-all-then-accept-all-vs-adder", []c22cOp{S(0)}, T{{Q(33, 10, 'n'), Q(33, 10, 'a')}, {S(1)}}},
-		{"remover-reader-adder", []c22cOp{S(0), S(2)}, T{{R(0, 33)}, {Q(33, 10, 'a')}, {S(1)}}},
-		{"cleaner-readder-reader", []c22cOp{S(0), S(2), R(0, 33), R(2, 36)}, T{{C}, {S(0)}, {Q(36, 10, 'a')}}},
-		{"cleaner-rejecting-reader-readder", []c22cOp{S(0), S(1), S(2), R(0, 33)}, T{{C}, {Q(36, 10, 'o')}, {S(0)}}},
-		{"two-limited-readers-duplicates", []c22cOp{S(0), S(2), S(1)}, T{{Q(33, 1, 'a')}, {Q(33, 2, 'a')}}},
-		{"adder-lookup-reader", nil, T{{S(0)}, {G(0)}, {Q(33, 10, 'a')}}},
-		{"same-fact-adder-rejecting-reader-lookup", []c22cOp{S(0)}, T{{S(1)}, {Q(33, 10, 'o')}, {G(1)}}},
-		{"cleaner-rejecting-and-accepting-readers", []c22cOp{S(0), S(2), R(0, 33)}, T{{C}, {Q(36, 10, 'n')}, {Q(36, 10, 'a')}}},
+		// adders of the SAME operation
+		{"same-op-adders-reader", false, nil, T{{S(0)}, {S(0)}, {Q(33, 10, 'a')}}},
+		{"same-op-adders-read-back", false, nil, T{{S(0), Q(33, 10, 'a')}, {S(0), Q(33, 10, 'a')}}},
+		{"same-op-adders-lookup", false, nil, T{{S(0), G(0)}, {S(0)}, {G(0)}}},
+		{"same-op-adders-rejecting-reader", true, nil, T{{S(0)}, {S(0)}, {Q(33, 10, 'n')}}},
+		// adders of two operations of ONE fact, of different facts, a reader with a limit
+		{"same-fact-adders-reader", true, nil, T{{S(0)}, {S(1)}, {Q(33, 10, 'a')}}},
+		{"different-facts-adders-limit-1", false, nil, T{{S(0)}, {S(2)}, {Q(33, 1, 'a')}}},
+		{"different-facts-adders-limit-1-twice", false, nil, T{{S(0), S(2)}, {Q(33, 1, 'a'), Q(33, 1, 'a')}}},
+		{"mixed-adders-limit-2", false, nil, T{{S(0), S(2)}, {S(3), S(1)}, {Q(33, 2, 'a')}}},
+		{"same-fact-adder-limit-1-then-all", true, []c22cOp{S(0)}, T{{S(1)}, {Q(33, 1, 'a'), Q(33, 10, 'a')}}},
+		{"two-limited-readers-duplicates", false, []c22cOp{S(0), S(2), S(1)}, T{{Q(33, 1, 'a')}, {Q(33, 2, 'a')}}},
+		{"adder-lookup-reader", false, nil, T{{S(0)}, {G(0)}, {Q(33, 10, 'a')}}},
+		// filtering readers
+		{"adder-rejecting-reader", true, nil, T{{S(0)}, {Q(33, 10, 'n')}}},
+		{"rejecting-and-accepting-readers", true, []c22cOp{S(0), S(2)}, T{{Q(33, 10, 'f')}, {Q(33, 10, 'a')}}},
+		{"reject-all-then-accept-all-vs-adder", true, []c22cOp{S(0)}, T{{Q(33, 10, 'n'), Q(33, 10, 'a')}, {S(1)}}},
+		{"same-fact-adder-lookup-rejecting-reader", true, []c22cOp{S(0)}, T{{S(1), G(1)}, {Q(33, 10, 'o')}}},
+		// the removal function
+		{"remover-reader", true, []c22cOp{S(0), S(2)}, T{{R(0, 33)}, {Q(33, 10, 'a')}}},
+		{"remover-same-fact-adder", true, []c22cOp{S(0)}, T{{R(0, 33)}, {S(1), S(0)}}},
+		// the cleaner
+		{"cleaner-readder-reader", false, []c22cOp{S(0), S(2), R(0, 33), R(2, 36)}, T{{C}, {S(0)}, {Q(36, 10, 'a')}}},
+		{"cleaner-readder-lookup", false, []c22cOp{S(0), S(2), R(0, 33), R(2, 36)}, T{{C}, {S(0), G(0)}, {G(0)}}},
+		{"cleaner-then-readd-vs-rejecting-reader", true, []c22cOp{S(0), S(1), S(2), R(0, 33)}, T{{C, S(0)}, {Q(36, 10, 'o')}}},
+		{"cleaner-vs-rejecting-then-accepting-reader", true, []c22cOp{S(0), S(2), R(0, 33)}, T{{C}, {Q(36, 10, 'n'), Q(36, 10, 'a')}}},
 	}
 }
 
@@ -881,14 +894,16 @@ func TestVerifC22Conc(t *testing.T) {
 		"states = distinct (scenario, outcome); non-trivial = a scenario with more than one outcome")
 	r.Assume("unit conc: the added-at clock (util/localtime, real time) gives different nanoseconds to SetOperation calls of one execution (verified on the ordered keys at quiescence)")
 
-	bound := vlib.Pick(r, 2, 3)
+	bound, boundHeavy := vlib.Pick(r, 2, 3), vlib.Pick(r, 2, 2)
 	if v := os.Getenv("VERIF_C22C_BOUND"); v != "" { // tuning aid only; never set by run.sh
 		fmt.Sscanf(v, "%d", &bound)
+		boundHeavy = bound
 	}
 
 	only := os.Getenv("VERIF_C22C_ONLY") // tuning aid only; never set by run.sh
 
 	r.Set("conc_preemption_bound", bound)
+	r.Set("conc_preemption_bound_heavy_scenarios", boundHeavy)
 
 	env := c22NewEnv(t)
 	scs := c22cScenarios()
@@ -935,7 +950,12 @@ func TestVerifC22Conc(t *testing.T) {
 			continue
 		}
 
-		res := vsched.Explore(vsched.Config{Name: id, Bound: bound, Build: build, Expired: r.Expired, MaxFound: 1, Horizon: 5000})
+		bnd := bound
+		if s.heavy {
+			bnd = boundHeavy
+		}
+
+		res := vsched.Explore(vsched.Config{Name: id, Bound: bnd, Build: build, Expired: r.Expired, MaxFound: 1, Horizon: 5000})
 		if res.EngineError != "" {
 			panic("engine error in " + id + ": " + res.EngineError)
 		}
@@ -949,7 +969,12 @@ func TestVerifC22Conc(t *testing.T) {
 			r.Cap("conc: " + res.Capped + " in " + s.name)
 		}
 
-		r.Min("conc_preemption_bound_completed", int64(res.BoundCompleted))
+		if s.heavy {
+			r.Min("conc_preemption_bound_completed_heavy_scenarios", int64(res.BoundCompleted))
+		} else {
+			r.Min("conc_preemption_bound_completed", int64(res.BoundCompleted))
+		}
+
 		r.Max("conc_max_points_per_execution", int64(res.MaxPoints))
 
 		if len(res.Outcomes) > 1 {
